@@ -395,7 +395,8 @@ BI_INT_OF_LIST = ["sum", "max", "min", "len"]
 # references whose values are instances of subclasses of int / float / str (c15lits), and the "probe" cells that
 # use them in a type-sensitive way.  These names are disjoint from every other name list, so no int-typed formula
 # reads them: they are covered by (P) and the namespace check only (the Gallina values have no strings / enums).
-LIT_REFS = ["hs", "hm", "sg", "rt", "cd", "ni"]
+LIT_REFS = ["hs", "hm", "sg", "rt", "cd", "ni", "value", "real"]   # the last two: names that are also attributes
+ATTR_NAMED = {"value": ["ienum", "senum"], "real": ["ienum", "num", "rate", "xfloat"]}
 MODEL_LIT_REFS = ["ghs", "grt", "gcd"]
 PROBE_NAMES = ["pr1", "pr2", "pr3"]
 ARITH = ["Add", "Add", "Sub", "Mul"]
@@ -789,7 +790,7 @@ def gen_case(rng, cid, py_builtins, stats):
         # literal-subclass references (an inherited one keeps its kind: inherited probes call its methods)
         if r.random() < 0.55:
             for n in r.sample(LIT_REFS, r.randint(1, 3)):
-                kind = sp["_lits"].get(n) or r.choice(L.KINDS)
+                kind = sp["_lits"].get(n) or r.choice([k for k in ATTR_NAMED.get(n, L.KINDS) if k in L.KINDS])
                 sp["refs"].append([n, ["lit", r.choice(L.BY_KIND[kind])]])
                 sp["_lits"][n] = kind
         # cells
@@ -892,6 +893,13 @@ def gen_case(rng, cid, py_builtins, stats):
         def meth(m, *args):
             return ["call", ["attr", R, m], list(args), [], []]
         opts = [tn, R]
+        if R[0] == "name" and R[1] in ATTR_NAMED and r.random() < 0.6:
+            # <expr>.N where <expr> contains the global name N itself (value.value, (real + 1).real, real.real)
+            if R[1] == "real":
+                return r.choice([["attr", R, "real"], ["attr", ["bin", "Add", R, iv], "real"]])
+            return ["attr", R, R[1]]
+        if kind in ("ienum", "num", "rate", "xfloat"):
+            opts += [["attr", R, "real"]]
         if kind in ("ienum", "senum"):
             opts += [["attr", R, "name"], ["attr", R, "value"]]
         if kind == "ienum":
